@@ -417,6 +417,13 @@ impl HttpServer {
                     continue;
                 }
 
+                // A closed connection is only kept until the responses for the requests
+                // it has already yielded are absorbed; there is nothing left to read from
+                // or write to it, so its readiness notifications are ignored.
+                if client_connection.state == ClientConnectionState::Closed {
+                    continue;
+                }
+
                 if e.event_set().contains(epoll::EventSet::IN) {
                     // We have bytes to read from this connection.
                     // If our `read` yields `Request` objects, we wrap them with an ID before
